@@ -537,12 +537,11 @@ def classify_compat(a, b, v):
     return 'C04/compat-sound/Enum._is_compatible/subset-ignores-value-type', 'Enum._is_compatible compares candidates with == only; the other Enum accepts numbers of a type this Enum refuses'
   return 'C04/compat-sound/%s<-%s/value-%s' % (cname(a), cname(b), type(v).__name__), '%s declares itself compatible with %s but refuses a value it accepts' % (cname(a), cname(b))
 
-BY_DESIGN_COMPAT = ('C04/compat-sound/is_compatible/sender-converts-or-completes-its-input',
-                    'literal reading: the sender accepts an input only by converting, completing or replacing it (MISSING_VALUE / an omitted key filled from its default, '
-                    'a value == its frozen value); the receiver refuses that input although it accepts what the sender makes of it')
-BY_DESIGN_EXTEND = ('C04/extend-narrows/extend/extension-converts-or-completes-its-input',
-                    'literal reading: the extended spec accepts an input only by converting, completing or replacing it; the base refuses that input although it accepts '
-                    'what the extended spec makes of it')
+# The property is read over the values of the sender (what its apply returns unchanged).  Inputs the sender
+# only accepts by converting / completing / replacing them (MISSING_VALUE, an omitted key filled from its own
+# default, a value == its frozen value) and that the receiver refuses are NOT failures of the property; they are
+# only counted (evidence histogram 'literal_input_reading').
+LITERAL = {'compat': 0, 'extend': 0}
 
 def total(vt):
   """No MISSING_VALUE anywhere inside the rendered value."""
@@ -579,8 +578,7 @@ def check_compat(a, b, values, hit, case):
             dict(case, value=out, local=dict(a=safe_render(x), b=safe_render(y), value=safe_value(v))))
         continue
     if out != vt and not accepts(a, vt):
-      hit(BY_DESIGN_COMPAT[0], '%s: %r.is_compatible(%r) is True, the latter maps %s to %s, the former refuses %s' % (
-          BY_DESIGN_COMPAT[1], a, b, show_value(vt), show_value(out) if isinstance(out, list) else out, show_value(vt)), dict(case, value=vt))
+      LITERAL['compat'] += 1
   return n
 
 def safe_render(s):
@@ -714,8 +712,7 @@ def check_extend(c0, b, r, values, hit, case):
         hit(sig, '%s: %r is a value of the extended %r, base %r refuses it' % (what, lv, y, x), dict(case, value=out))
         continue
     if out != vt and not acc_py(b, project(b, build_value(vt), r)):
-      hit(BY_DESIGN_EXTEND[0], '%s: extended %r maps %s to %s, base %r refuses %s' % (
-          BY_DESIGN_EXTEND[1], r, show_value(vt), show_value(out) if isinstance(out, list) else out, b, show_value(vt)), dict(case, value=vt))
+      LITERAL['extend'] += 1
   bad = shared_compat(b, r)
   if bad is not None:
     sig, what = classify_extend('base-compatible', c0, b, r, bad[0], bad[1])
@@ -1027,6 +1024,7 @@ def nontrivial_spec(t):
 def run(ctx):
   ctx.build()
   rng = ctx.rng
+  LITERAL['compat'] = LITERAL['extend'] = 0
   flags = probe_quirks(ctx)
   ctx.extra['quirk_flags'] = {n: bool(f) for (n, _), f in zip(QUIRKS, flags)}
   gen = PairGen(rng, ctx)
@@ -1110,6 +1108,8 @@ def run(ctx):
           rv = vals + values_for(out[1], rng, 20)
         noracle += check_extend(build(xt), build(yt), r, rv, hit, dict(op='extend', c=xt, b=yt))
   ctx.extra['oracle_value_checks'] = noracle
+  ctx.hist('literal_input_reading', 'compat: sender converts/completes an input the receiver refuses (not a failure)', LITERAL['compat'])
+  ctx.hist('literal_input_reading', 'extend: extension converts/completes an input the base refuses (not a failure)', LITERAL['extend'])
   ctx.extra['apply_cases'] = napply
 
   # ---- theorem hypotheses on the states the library produced (constructed specs and extension results) --------
